@@ -168,6 +168,10 @@ def make_scene(eng, cname, role, rootkind=None, second=False):
                 st.g[nm] = smt.fresh(nm, smt.ArrVB)
             st.assume(z3.Select(st.g[nm], to_val(st.rec(n).fields["_filename"])))
     sc.nodes = nodes
+    # Inv.data (C11): the content of every node is admissible for its own class
+    from contracts.core import allowed
+    for n in nodes:
+        st.assume(allowed(eng, st.rec(n).cls, st.sel("View", z3.IntVal(n.addr))))
     if backend_base(rootcls) == "JSONCollection":
         # the abstract resource content of a JSON file is the decoded content of its bytes
         from .stdlib_spec import json_loads
